@@ -2,6 +2,7 @@
 EXTENDS Cli, Json, SequencesExt
 CONSTANT OutFile
 ASSUME QuietIsSilent /\ CountLines /\ StatusTable
+ASSUME MainRefinesContract
 ASSUME LET sq == SetToSeq(Configs) IN
        /\ ndJsonSerialize(OutFile, [j \in 1..Len(sq) |->
              [flags |-> SetToSeq(sq[j].flags), qc |-> sq[j].qc, files |-> sq[j].files, args |-> sq[j].args,
